@@ -9,9 +9,9 @@ for d in sorted(glob.glob('/verif/seeded/*/')):
     h = m['history']
     head = h.split(';')[0]
     first = 'missed' if ('MISSED' in head or 'INCONCLUSIVE' in head) else 'caught'
-    rnd = {'a': 1, 'b': 1, 'c': 2, 'd': 2, 'e': 2, 'f': 3, 'g': 3, 'h': 4, 'i': 4, 'j': 5, 'k': 5, 'l': 6, 'm': 6, 'n': 7, 'p': 7}[n[-1]]
+    rnd = {'a': 1, 'b': 1, 'c': 2, 'd': 2, 'e': 2, 'f': 3, 'g': 3, 'h': 4, 'i': 4, 'j': 5, 'k': 5, 'l': 6, 'm': 6, 'n': 7, 'p': 7, 'q': 8, 'r': 8, 'x': 8}[n[-1]]
     rows.append((n, ', '.join(m['changed_files']), first, h, rnd, ', '.join(m.get('detected_by', []))))
-cnt = {r: [sum(1 for x in rows if x[4] == r), sum(1 for x in rows if x[4] == r and x[2] == 'missed')] for r in (1, 2, 3, 4, 5, 6, 7)}
+cnt = {r: [sum(1 for x in rows if x[4] == r), sum(1 for x in rows if x[4] == r and x[2] == 'missed')] for r in (1, 2, 3, 4, 5, 6, 7, 8)}
 retired = sorted(os.path.basename(d.rstrip('/')) for d in glob.glob('/verif/retired/*/'))
 out = [f'''
 ## 9. Seeded changes: which checks catch which
